@@ -805,14 +805,35 @@ func authTriple(r *lib.Rng) []gv {
 	}
 	s1 := overlap(base)
 	var sets []authT
-	mk := func(es []string, d bool) authT { return authT{kind: "set", disj: d, es: es} }
+	mk := func(es []string, d bool) authT { // entitlement sets are sets: no duplicates
+		seen := map[string]bool{}
+		var out []string
+		for _, e := range es {
+			if !seen[e] {
+				seen[e] = true
+				out = append(out, e)
+			}
+		}
+		return authT{kind: "set", disj: d, es: out}
+	}
 	switch r.Intn(6) {
 	case 0: // chain: base ~ s1 ~ s2, base and s2 as far apart as possible
 		s2 := shuffled(r, s1)
 		for i, e := range s2 {
 			for _, b := range base {
-				if e == b {
-					s2[i] = pickEnts(r, 1, append(append([]string{}, base...), s2...))[0]
+				if e != b {
+					continue
+				}
+				// replace a member shared with base by an entitlement outside base and s2, if there is one
+				for _, c := range shuffled(r, entPool) {
+					fresh := true
+					for _, x := range append(append([]string{}, base...), s2...) {
+						fresh = fresh && x != c
+					}
+					if fresh {
+						s2[i] = c
+						break
+					}
 				}
 			}
 		}
